@@ -38,7 +38,7 @@ def check(ctx, src):
             elif verdict == "report":
                 ctx.bad("DET-SET", key, how + "; the emitted order varies with PYTHONHASHSEED",
                         m.rel, n.lineno,
-                        witness="any program that puts two or more distinct names into this set")
+                        witness="any program that puts two or more distinct names into this set", robust=True)
             else:
                 ctx.unres("DET-SET", key, how)
         for n, fn, ok, how in detflow.scan_entropy(m):
@@ -79,7 +79,7 @@ def check(ctx, src):
                     ctx.ok("DET-HYSET", key, f"({head} ...)")
                 elif head in ("for", "lfor", "gfor", "sfor", "dfor", "list", "tuple", ".join", "map", "iter", "next", "unpack-iterable") or par.kind == "list":
                     ctx.bad("DET-HYSET", key, f"set `{node.val}` is iterated by ({head} ...): hash order", rel, node.line,
-                            witness="two or more elements in the set")
+                            witness="two or more elements in the set", robust=True)
                 else:
                     ctx.unres("DET-HYSET", key, f"use in ({head} ...)")
         # set-valued expressions iterated in place: (lfor x (sfor …) …), (for [x #{…}] …), (dfor m (set …) …)
@@ -93,7 +93,7 @@ def check(ctx, src):
             if (head in ("lfor", "gfor", "dfor") and node is not par.items[-1]) or (par.kind == "list" and par._parent is not None and par._parent.head() == "for") \
                     or head in ("list", "tuple", "map", "enumerate", "zip", "iter", "next", ".join", "unpack-iterable"):
                 ctx.bad("DET-HYSET", key, f"a set-valued expression is iterated by ({head or 'for'} …): the order of the result depends on PYTHONHASHSEED", rel, node.line,
-                        witness="two or more elements: e.g. the dict that (local-macros) expands to lists its keys in a different order per process")
+                        witness="two or more elements: e.g. the dict that (local-macros) expands to lists its keys in a different order per process", robust=True)
             elif head in HY_ORDER_FREE or head in ("sfor", "setv", "when", "if", "and", "or", "|", "&", "-"):
                 ctx.ok("DET-HYSET", key, f"({head} …)", nontrivial=False)
     ctx.floor("DET-HYSET", 4)
